@@ -26,7 +26,7 @@ type job struct {
 	bin   string
 	args  func(dir string) []string // functional options + inputs (files are under dir)
 	setup func(c *core.Ctx, dir string, n int)
-	noPB  bool // command has no --no-progressbar option
+	noPB  bool     // command has no --no-progressbar option
 	files []string // side output files (relative to the case directory) compared together with stdout
 }
 
@@ -35,7 +35,9 @@ func w(dir, name string, data []byte) { os.WriteFile(filepath.Join(dir, name), d
 func jobs() []job {
 	fa := func(c *core.Ctx, dir string, n int) { w(dir, "in.fasta", gen.GenericFasta(c.Rng, n)) }
 	fq := func(c *core.Ctx, dir string, n int) { w(dir, "in.fastq", gen.GenericFastq(c.Rng, n)) }
-	in := func(f string) func(string) []string { return func(d string) []string { return []string{filepath.Join(d, f)} } }
+	in := func(f string) func(string) []string {
+		return func(d string) []string { return []string{filepath.Join(d, f)} }
+	}
 	with := func(f string, a ...string) func(string) []string {
 		return func(d string) []string { return append(append([]string{}, a...), filepath.Join(d, f)) }
 	}
@@ -105,6 +107,8 @@ func jobs() []job {
 		{name: "obipcr:flank", bin: "obipcr", setup: pcr, args: pcrArgs("-e", "1", "-L", "300", "-l", "10", "-D", "5")},
 		{name: "obicount:all", bin: "obicount", setup: fa, args: in("in.fasta"), noPB: true},
 		{name: "obisummary:json", bin: "obisummary", setup: fq, args: with("in.fastq", "--json-output"), noPB: true},
+		{name: "obisummary:obiclean", bin: "obisummary", setup: func(c *core.Ctx, dir string, n int) { w(dir, "clean.fasta", gen.ObicleanFasta(c.Rng, n)) },
+			args: with("clean.fasta", "--json-output"), noPB: true},
 		{name: "obisummary:yaml", bin: "obisummary", setup: fa, args: with("in.fasta", "--yaml-output"), noPB: true},
 		{name: "obicsv:keys", bin: "obicsv", setup: fa, args: with("in.fasta", "-i", "-s", "--count", "-k", "sample")},
 		{name: "obicsv:quality", bin: "obicsv", setup: fq, args: with("in.fastq", "-i", "-q", "-k", "count")},
